@@ -7,7 +7,7 @@ KINDS = {'wr', 'wrf', 'call', 'arg'}
 MASKS = {"zero": [0, 0, 0, 0], "ones": [255, 255, 255, 255], "lanes": [1, 2, 4, 8], "random": None}
 
 
-def scenario(case, mask, seed, reconnect=False):
+def scenario(case, mask, seed, reconnect=False, nct=False):
     sc = {"conns": [{"stream": [{"t": "http", "v": "ok"}]}], "seed": seed,
           "react": {"ready#0": [["api", case['m'], {"cls": case['cls'], "len": case['len'], "plane": case['plane'],
                                                     "flag": case['flag'], "code": case['code']}]]},
@@ -17,6 +17,15 @@ def scenario(case, mask, seed, reconnect=False):
         sc['ws_kwargs'] = {"compress": True}
     if MASKS[mask] is not None:
         sc['mask'] = MASKS[mask]
+    if nct:
+        # negotiated with client_no_context_takeover: the same call is made twice with the same content, a peer that inflates every
+        # message afresh must restore the second one (judged: the records of the second call)
+        sc['conns'][0]['stream'][0]['ext'] = 'permessage-deflate; client_no_context_takeover'
+        sc['ws_kwargs'] = {"compress": True}
+        sc['peer'] = {"swb": 15, "cwb": 15, "s_nct": False, "c_nct": True}
+        call = sc['react']['ready#0'][0]
+        call[2]['fixed'] = True
+        sc['react']['ready#0'] = [call, [call[0], call[1], dict(call[2])]]
     if reconnect:
         # first connection on the same object: compression negotiated, dropped by the server; the call is made on the second one
         sc['conns'] = [{"stream": [{"t": "http", "v": "ok", "ext": "permessage-deflate"}]}] + sc['conns']
@@ -31,7 +40,7 @@ def run(tier, seed):
     r = pipeline.Run('C03', tier, seed)
     r.rule = ('every row of the API table of spec/GenC03.tla (6 methods x argument classes valid / wrong type / oversize x payload lengths '
               '0,1,125,126,127,65535,65536,65537 x Unicode planes / byte patterns x close codes and reason lengths 0,1,122,123 / 124,125,200 '
-              'x compression negotiated? x compress flag) executed on a Ready connection with %d masking keys each; non-trivial = distinct '
+              'x compression negotiated? x compress flag) executed on a Ready connection with %d masking keys each (compressible calls also repeated under client_no_context_takeover); non-trivial = distinct '
               'cases in which a frame was written' % (2 if q else 4))
     r.assumptions = ['the independent server-side decoder (harness/codec.py) and zlib peer are trusted',
                      'send_json: the written text must parse back to the caller\'s object (json.loads)']
@@ -48,6 +57,10 @@ def run(tier, seed):
     for c in cases:
         if not c['case']['neg'] and c['case']['m'] in ('send_text', 'send_binary') and c['case']['len'] in (1, 126):
             jobs.append((c, 'reconnect', scenario(c['case'], 'random', seed + len(jobs), reconnect=True)))
+    for c in cases:
+        if c['case']['neg'] and c['case']['flag'] and c['case']['cls'] == 'valid' and c['case']['m'] in ('send_text', 'send_binary', 'send_json') \
+                and c['case']['len'] in (125, 126, 127):
+            jobs.append((c, 'nct', scenario(c['case'], 'random', seed + len(jobs), nct=True)))
     logs = pipeline.execute([j[2] for j in jobs])
     r.evaluations = len(jobs)
     r.traces = len(jobs)
@@ -57,6 +70,10 @@ def run(tier, seed):
         # records of the API call: from the Ready event up to and including the call record
         end = next((k for k, x in enumerate(log) if x['k'] == 'call'), len(log) - 1)
         start = max([k for k, x in enumerate(log[:end]) if x['k'] == 'ev' and x['name'] == 'ready'] or [len(log)])
+        if mk == 'nct':
+            callpos = [k for k, x in enumerate(log) if x['k'] == 'call']
+            if len(callpos) == 2:
+                start, end = callpos[0] + 1, callpos[1]
         tr = sessprop.slim(log[start:end + 1], KINDS, drop=('headers', 'msg'))
         traces.append({"id": i, "case": c['case'], "exp": c['exp'], "tr": tr})
         if any(x['k'] == 'wr' for x in tr):
@@ -85,6 +102,9 @@ def replay(path, seed):
     log, _ = world.run_scenario(case['scenario'])
     start = next((k for k, x in enumerate(log) if x['k'] == 'ev' and x['name'] == 'ready'), len(log))
     end = next((k for k, x in enumerate(log) if x['k'] == 'call'), len(log) - 1)
+    callpos = [k for k, x in enumerate(log) if x['k'] == 'call']
+    if case.get('mask') == 'nct' and len(callpos) == 2:
+        start, end = callpos[0] + 1, callpos[1]
     tr = sessprop.slim(log[start:end + 1], KINDS, drop=('headers', 'msg'))
     for x in tr:
         print(json.dumps({k: v for k, v in x.items() if k not in ('pl', 'raw')}))
